@@ -103,4 +103,14 @@ CLAIMS = {
         "fixes/C14_did_key_alias.diff (did:key alias: a parsed DID whose String() re-parses to an error/another DID).",
    technique="Coq proof (byte-level framings + symbolic crypto) + differential correspondence with real Ed25519/RSA keys",
    ref="5/C14"),
+ "C08": dict(
+   text="Coq (Server.v on top of the validator model): C08_iff — for every store, server (any context, any handlers) and invocation the handler call log of Run is empty or one call of the handler registered for the invocation's single ability, and non-empty iff the validator authorizes; C08_once (<= 1 call), C08_args (the call carries the invocation's ability, resource and the caveats read by the handler's descriptor), C08_unauthorized (no call, receipt error Unauthorized), C08_cap_count (0 or several capabilities -> InvocationCapabilityError, no call), C08_not_found, C08_batch_once (at most one call per distinct invocation of a request). Tie: seeded random batches (chains with defects, decoys, RSA, revocation, resolver proofs, 0/2-capability invocations, duplicate listings, handlers returning value / value+effects / error / unregistered) through server.NewServer + client.Execute with recording handlers: per-invocation receipt class, ran, issuer, number of receipts and the multiset of handler calls must equal the model's.",
+   note='Validator-model assumptions (symbolic signatures, CIDs as identities, Hres, mirrored caller-supplied functions). Receipt classes are read from the transported receipt block by the harness. Requires the fix commits in KNOWN_FINDINGS.txt (struct field order of InvocationCapabilityError; de-duplication of the execute list). No axioms.',
+   technique='Coq proof (iff / at-most-once / exact-argument theorems over all servers and invocations) + differential correspondence through the real server with recording handlers',
+   ref='5/C08'),
+ "C09": dict(
+   text="Coq: C09_one_each — for every batch, outcome mix and EVERY order in which the per-invocation goroutines append their receipts (any permutation) the report maps each distinct invocation link to the receipt of exactly that invocation, issued by the server and produced by Run of that invocation, nothing else, distinct keys, as many entries as distinct invocations; C09_schedule_independent (the response as a map does not depend on the interleaving); race freedom: lockset theorem (any table obeying the discipline has no reachable race for any number of workers and schedules) instantiated in coqgen/Tie_LocksExec.v with the access table RE-EXTRACTED from server.Execute's goroutine literal on every run. Search/tie: batches of 0..64 with mixed outcomes, schedule-perturbing handlers, GOMAXPROCS 1/2/4/16, in-process and loopback HTTP, concurrent requests to one server, all under the race detector; per invocation Get(link), ran, issuer, class, counts compared with the model. PARTIAL for 'free of data races': lock discipline in an interleaving semantics; the Go memory model is not formalised and the race-detector runs are a search.",
+   note='As C08, plus: sync.RWMutex/WaitGroup as an abstract lock/join; the go/ast lock/access extractor; requests are independent because Handle only reads server state (exercised by concurrent requests, not proved from the source). Requires fix commits (rerr under the lock, de-duplication, struct field order). No axioms.',
+   technique='Coq proof (all permutations of receipt order; lockset invariant) + lock-table extraction tie + race-detector batch search compared with the model',
+   ref='5/C09'),
 }
